@@ -24,6 +24,8 @@ from vfw import indxgen as G  # noqa: E402
 from vfw.props import c10, c11  # noqa: E402
 
 rec = core.Rec()
+CALLS = [0]
+MODE = os.environ.get("VFW_FUZZ_MODE", "c11")
 MAGS = [0, 1, 200, 255, 256, 65535, 65536, 2 ** 32 - 1, 2 ** 32, 2 ** 63 - 1]
 
 
@@ -64,8 +66,14 @@ def one_input(data):
         if mode <= 1:
             case = structured(fdp)
             rec.begin(case)
+            if MODE == "c10":
+                c10.check(case, rec)
+            else:
+                c11.check_writer(case, rec)
+        elif MODE == "c10":
+            case = structured(fdp)
+            rec.begin(case)
             c10.check(case, rec)
-            c11.check_writer(case, rec)
         else:
             raw = bytes(data[1:])
             rec.begin({"raw": raw.hex()})
@@ -91,9 +99,11 @@ def one_input(data):
         with open(VIOL, "w") as f:
             json.dump({"case": rec.current, "message": str(v), "sig": v.sig}, f)
         raise
-    if rec.evaluations % 2000 == 0:
-        with open(STATS, "w") as f:
+    CALLS[0] += 1
+    if CALLS[0] % 500 == 0:
+        with open(STATS + ".tmp", "w") as f:
             json.dump(rec.export(), f)
+        os.replace(STATS + ".tmp", STATS)
 
 
 def main():
